@@ -346,6 +346,20 @@ def ok_sources(g, e, depth=0):
         if _MAP.search(e[1]) and len(e[2]) > 1 and isinstance(e[2][1], tuple) and e[2][1] and e[2][1][0] == "fn" \
                 and re.search(r"(^|::)Some$", str(e[2][1][1])):
             return {("agg", "std::option::Option", "Some", (x,)) for x in ok_sources(g, e[2][0], depth + 1)}
+        if re.search(r"bool(::<impl bool>)?::then_some$", e[1]) and len(e[2]) > 1:
+            return {e[2][1]}
+        if re.search(r"bool(::<impl bool>)?::then$|(Result::<T, E>|Option::<T>)::(map|and_then)$", e[1]) and len(e) > 3:
+            # the closure's own return value(s): Some(ret) for then/map, ret itself (an Option/Result) for and_then
+            cis = g.closure_insts.get(e[3], [])
+            if len(cis) == 1:
+                out = set()
+                for x in _defs_exprs(g, cis[0], 0):
+                    if e[1].endswith("and_then"):
+                        out |= ok_sources(g, x, depth + 1)
+                    else:
+                        out.add(x)
+                if out:
+                    return out
     if h == "okval":
         out = set()
         for x in ok_sources(g, e[1], depth + 1):
@@ -384,3 +398,102 @@ def value_sources(g, e, depth=0):
     if h == "field" and isinstance(e[1], tuple) and e[1] and e[1][0] in ("okval", "var", "ret"):
         return {("field", x, e[2]) for x in value_sources(g, e[1], depth + 1)}
     return {e}
+
+
+# --------------------------------------------------------------------------------------
+# roles around chunk-file creation
+# --------------------------------------------------------------------------------------
+_OO_FLAGS = r"fs::OpenOptions::(read|write|append|truncate|create|create_new)$"
+
+
+def open_flags(g, n):
+    """flags set to true on the OpenOptions an `OpenOptions::open` event at n is called on: through the builder chain in the receiver's
+    provenance, or through `&mut` calls on the same options value (`let mut o = OpenOptions::new(); o.create_new(true); o.open(p)`)"""
+    flags = set()
+    a = event_args(g, n)
+    if not a:
+        return flags
+    recv = a[0]
+
+    def chain(e):
+        if isinstance(e, tuple) and e and e[0] == "call" and re.search(_OO_FLAGS, str(e[1])) and len(e[2]) > 1:
+            if e[2][1] == ("const", "1"):
+                flags.add(e[1].split("::")[-1])
+            chain(e[2][0])
+        elif isinstance(e, tuple):
+            for x in e:
+                if isinstance(x, tuple):
+                    chain(x)
+    chain(recv)
+
+    def root(e):
+        while isinstance(e, tuple) and e and e[0] == "call" and re.search(_OO_FLAGS, str(e[1])) and e[2]:
+            e = e[2][0]
+        return e
+    r0 = root(recv)
+    inst = g.inst(n)
+    for m in g.nodes:
+        if g.inst(m) is not inst:
+            continue
+        t = g.term(m)
+        if t["k"] == "call" and m not in g.callee_inst and cmatch(t, _OO_FLAGS):
+            b = event_args(g, m)
+            if len(b) > 1 and root(b[0]) == r0 and b[1] == ("const", "1"):
+                flags.add(cpath(t).split("::")[-1])
+                # the rest of that builder chain
+                chain(b[0])
+    return flags
+
+
+def creates_file(g, n, kinds=("create_new",)):
+    return bool(open_flags(g, n) & set(kinds))
+
+
+_creators_memo = {}
+
+
+def chunk_creators(ctx):
+    """keys of the chunk-creating function(s): the innermost crate-local function that has the create_new open in its call cone AND receives
+    the head record (a WALRecord parameter) - whether the open itself sits in it or in a private helper below it"""
+    key = id(ctx)
+    if key in _creators_memo:
+        return _creators_memo[key]
+    bodies = {b["key"]: b for b in ctx.facts.doc["bodies"] if not b["key"].startswith(("testing::", "<testing::"))}
+    callers = {}
+    base = set()
+    for k, b in bodies.items():
+        for blk in b["blocks"]:
+            if blk.get("cleanup"):
+                continue
+            t = blk["term"]
+            if t["k"] != "call" or not t.get("callee"):
+                continue
+            c = t["callee"]
+            if re.search(r"fs::OpenOptions::create_new$", c.get("path", "")):
+                base.add(k)
+            rk = c.get("rkey")
+            if rk and rk in bodies:
+                callers.setdefault(rk, set()).add(k)
+
+    def takes_record(b):
+        tys = [l.get("ty", "") for l in b.get("locals", [])[1:1 + b.get("argc", 0)]]
+        return any(re.search(r"(^|[^\w:])(\w+::)*WALRecord<", t) for t in tys)
+    out, seen, work = set(), set(), list(base)
+    while work:
+        k = work.pop()
+        if k in seen:
+            continue
+        seen.add(k)
+        b = bodies[k]
+        if takes_record(b):
+            out.add(k)
+            continue
+        parent = k.rsplit("::{closure", 1)[0] if "::{closure" in k else None
+        ups = set(callers.get(k, ()))
+        if parent and parent in bodies:
+            ups.add(parent)
+        work.extend(ups)
+    if not out:
+        out = set(base)
+    _creators_memo[key] = out
+    return out
